@@ -974,7 +974,17 @@ class Circuit(Function):
             else:
                 self._gate_to_users[gate_label].extend(list_users)
 
-        check_circuit_has_no_cycles(self)
+        # A cycle can only pass through the new gates; they need not be reachable
+        # from the circuit outputs.
+        check_circuit_has_no_cycles(
+            self,
+            list(self.outputs)
+            + [
+                new_gate.label
+                for new_gate in subcircuit.gates.values()
+                if new_gate.label not in inputs_mapping.values()
+            ],
+        )
 
         return self
 
